@@ -10,6 +10,7 @@ Tie: stream `xcodec` (each generated value through both Go codecs; harness-side 
 -/
 import Verif.Proofs.Codec.Xcodec
 import Verif.Proofs.Codec.Json
+import Verif.Proofs.Codec.CcfRt
 namespace Verif.Properties.C43
 open Verif.Model.Codec Verif.Model.Codec.Ccf Verif.Proofs.Codec.Xcodec
 
@@ -48,11 +49,30 @@ example : ValueOk (.arr (.varr (.prim "Int")) (.cons (.int "Int" 1) (.cons (.cap
 example : (eraseT (.comp .enum "S.test.E" (.prim "UInt8") (.cons "rawValue" (.prim "UInt8") .nil) .nil)).id = "S.test.E" :=
   ccf_erasure_keeps_type_ids _
 
+/-- `agree`, unconditional on the subset where both round trips are proved (C41 `roundtrip_partial` and
+C42 `roundtrip_partial`: scalars, optionals, arrays, dictionaries, ranges, capabilities with complete
+static types, no composite types): both decoders succeed, the CCF-decoded value is the value with its
+dictionaries in key order and has the type ID of `v`'s type, the JSON-decoded value is `erase v`; when
+no dictionary is reordered (`canonV v = v`) the two decoded values are equal after erasure.  Missing:
+equality after erasure *as sets of entries* when a dictionary is reordered (then the CCF side is a
+permutation of the entries: C42 `roundtrip_dictionary_is_permutation`), and the fuel of `decodeMsg`. -/
+theorem agree_on_proved_subset_partial (m : Mode) (dm : Verif.Model.Codec.CcfDecode.DMode) (v : CValue)
+    (hf : Verif.Model.Codec.CcfDecode.Rt.Fits v v.typeOf) (hc : collect v = [])
+    (hp : Verif.Proofs.Codec.Json.plainOk v = true) :
+    ∃ x dC, encodeItem m v = .ok x ∧
+      (∀ fuel, Verif.Model.Codec.CcfDecode.Rt.vdepth v < fuel → Verif.Model.Codec.CcfDecode.decodeMsgF dm fuel x = .ok dC) ∧
+      decode (prepare v) = .ok (erase v) ∧
+      dC = Verif.Model.Codec.CcfDecode.Rt.canonV m [] v ∧ dC.typeOf.id = v.typeOf.id ∧
+      (Verif.Model.Codec.CcfDecode.Rt.canonV m [] v = v → erase dC = erase v) := by
+  obtain ⟨x, hx, hd⟩ := Verif.Model.Codec.CcfDecode.Rt.rt_msg m dm v hf hc
+  refine ⟨x, _, hx, hd, Verif.Proofs.Codec.Json.rt_plain v hp, rfl, ?_, fun h => by rw [h]⟩
+  rw [Verif.Model.Codec.CcfDecode.Rt.canonV_typeOf]
+
 /-
 Full statement (DESIGN §6 C43 `agree`): for every v with complete type information,
   erase (decodeCcf (encodeCcf v)) = decodeJson (prepare v)   (dictionaries as sets)
-and equal type IDs.  Missing: the unconditional round trips of C41 (beyond scalars) and C42 (no port of
-the CCF decoder); the borrow types of capability values are compared by type ID (CCF carries them as
+and equal type IDs.  Missing: the round trips of C41 and C42 beyond their proved subsets (composite values on the CCF side,
+embedded composite types on the JSON side), and equality of reordered dictionaries as sets; the borrow types of capability values are compared by type ID (CCF carries them as
 inline types; Go's Type.Equal identifies composite types by their ID).  The JSON-decoded value has no
 type at all for arrays, dictionaries (Go nil type), so "equal type IDs" is checked where both exist.
 -/
